@@ -70,7 +70,7 @@ def floors(tier):
             "nothing_binds": 300 * k, "spectra_with_zeros": 300 * k, "spectra_all_equal": 50 * k, "single_element_sectors": 500 * k,
             "stage_consistency_checked": 100 * k, "multiplets_hermitian_judged": 40 * k, "decomp_fused": 80 * k, "decomp_lazy": 150 * k, "decomp_dict_by_charge": 40 * k,
             "decomp_designed_spectrum": 100 * k, "mask_f_used": 10 * k,
-            "lowrank_judged": 250 * k, "lowrank_arpack_cases": 40 * k, "lowrank_dict_asymmetric": 80 * k,
+            "decomp_dict_asymmetric": 30 * k, "lowrank_judged": 250 * k, "lowrank_arpack_cases": 40 * k, "lowrank_dict_asymmetric": 80 * k,
             "lowrank_dict_asymmetric_negated_combo": 30 * k, "lowrank:k_dict": 20 * k, "lowrank:int": 30 * k}
 
 
@@ -832,9 +832,20 @@ def svd_trunc_case(ctx, idx, sym):
     if any(t not in sec.sec for t in full):
         ctx.violation("svd_with_truncation:new-leg-charges", f"sectors {sorted(full)} vs charge conservation {sorted(sec.sec)}", w)
         return
-    mode = rng.choice(("limits", "limits", "limits", "limits", "multiplets", "mask_f", "defaults"))
+    mode = rng.choice(("limits", "limits", "limits", "limits", "dict", "dict", "multiplets", "mask_f", "defaults"))
     kw = {}
-    if mode == "limits":
+    if mode == "dict" and not full:
+        mode = "defaults"
+    if mode == "dict":
+        # the per-sector dictionary is THE binding limit: keyed by the new-leg charges, values not symmetric under t -> -t
+        kw = {"D_block": sector_dict(ctx, rng, sym, full_raw, "decomp_dict_asymmetric")}
+        extra = limits_for_decomp(rng, full, False)
+        for name in ("D_total", "tol", "tol_block"):
+            if name in extra and rng.random() < 0.3:
+                kw[name] = extra[name]
+        ctx.count("decomp_dict_by_charge")
+        mode = "limits"
+    elif mode == "limits":
         kw = limits_for_decomp(rng, full)
         if isinstance(kw.get("D_block"), dict) or isinstance(kw.get("tol_block"), dict):
             ctx.count("decomp_dict_by_charge")
@@ -890,6 +901,18 @@ def svd_trunc_case(ctx, idx, sym):
              sum(len(v) for v in full.values()) >= 2,
              {"workload": "svd_with_truncation", "sym": sym, "kwargs": kw_desc(kw), "full": {str(t): v.tolist() for t, v in full_raw.items()},
               "kept": {str(t): v.tolist() for t, v in kept_raw.items()}} if idx % 40 == 2 else None)
+
+
+def sector_dict(ctx, rng, sym, full_raw, counter):
+    """Per-sector limits covering every sector of the spectrum, in general different for t and -t."""
+    ts = sorted(full_raw)
+    lim = {t: rng.choice((0, 1, 2, 3, len(full_raw[t]), len(full_raw[t]) + 1, max(len(full_raw[t]) - 1, 0)) + ((6, 11, 17) if len(full_raw[t]) > 30 else ()))
+           for t in ts}
+    if all(v == 0 for v in lim.values()):
+        lim[ts[0]] = 1
+    if any(lim.get(G.neg(sym, t)) != lim[t] for t in ts):
+        ctx.count(counter)
+    return lim
 
 
 def big_matrix(E):
@@ -959,14 +982,9 @@ def svd_lowrank_case(ctx, idx, sym):
     if form.endswith("int"):
         lim = rng.choice((1, 2, 3, max(maxD - 1, 1), maxD, maxD + 2) + ((5, 8, 12, 20) if big else ()))
     else:
-        lim = {t: rng.choice((0, 1, 2, 3, len(full_raw[t]), len(full_raw[t]) + 1, max(len(full_raw[t]) - 1, 0)) + ((6, 11, 17) if len(full_raw[t]) > 30 else ()))
-               for t in ts}
-        if all(v == 0 for v in lim.values()):
-            lim[ts[0]] = 1
-        neg = {t: lim.get(G.neg(sym, t)) for t in ts}
-        if any(neg[t] != lim[t] for t in ts):
-            ctx.count("lowrank_dict_asymmetric")
-            ctx.count("lowrank_dict_asymmetric_negated_combo", int(negated))
+        before = ctx.counters["lowrank_dict_asymmetric"]
+        lim = sector_dict(ctx, rng, sym, full_raw, "lowrank_dict_asymmetric")
+        ctx.count("lowrank_dict_asymmetric_negated_combo", int(negated and ctx.counters["lowrank_dict_asymmetric"] > before))
     kw = {("k_block" if form.startswith("k_") else "D_block"): lim}
     extra, _ = gen_limits(rng, cluster(full_raw, 1e-8), False, True)
     for name in ("D_total", "tol", "tol_block"):
